@@ -2425,10 +2425,10 @@ def _data_setter(self, new_data):
 
 
 def _grad(self):
-    grad = self._tensordict._grad
+    grad = self._tensordict.grad
     if grad is None:
         return None
-    return self._from_tensordict(self._tensordict.grad, dict(self._non_tensordict))
+    return self._from_tensordict(grad, dict(self._non_tensordict))
 
 
 def _names_setter(self, names: str) -> None:  # noqa: D417
